@@ -133,3 +133,17 @@ CHECKS["C06"] = {
          "shards": {"quick": 8, "thorough": 16}, "timeout": {"quick": 500, "thorough": 3400}},
     ],
 }
+
+CHECKS["C14"] = {
+    "level": "fault_enumeration",
+    "technique": "property-based testing (rapid) over builder compositions (1..4 builders, 1..3 keys of 1024/2048 bits in any order, every participation pattern, non-revocation/range parts, both session kinds, arbitrary context) with complete enumeration of alterations of the keyshare response request relative to the commitment request; oracle = honest exchange completes with equal challenges and a verifying list for total secret, altered second message => error and no response",
+    "level_text": "The user/server exchange is driven exactly as the API prescribes; ProofP.C must equal the user's challenge, the merged list must verify with the label vector and every secret-key response must equal (r_user + r_server) + c*(s_user + s_server). Each enumerated alteration of the second message (values, commitments incl. +k*N, other commitments, key ids, entries added/removed/reordered, commitment hash) must be refused.",
+    "level_note": "Toy keys cannot take part (the server sizes its randomiser for 1024/2048-bit parameters only), so this check runs on 1024- and 2048-bit keys. Nonce and session flag are not committed to in the first message: changing them is not expected to be refused, only to yield a list that does not verify.",
+    "rule": ("case = one exchange or one altered second message. Non-trivial: alterations that keep the message well-formed; honest compositions with >= 2 keys of which a strict subset participates, or with context != 1; "
+             "distinct by (composition incl. key order and participation, session kind, context class, alteration)."),
+    "assumptions": ["fxamacker/cbor and crypto/sha256 inside the library's commitment hash are not re-implemented"],
+    "units": [
+        {"pkg": "root", "run": "TestVF_C14", "rapid": {"quick": 60, "thorough": 500},
+         "shards": {"quick": 8, "thorough": 16}, "timeout": {"quick": 500, "thorough": 3400}},
+    ],
+}
